@@ -113,6 +113,12 @@ def _ctx(c):
 def apply_op(mab, op, catch=True):
     """Apply one op through the public API; return the canonical output (None for commands)."""
     name = op[0]
+    if name in ("fit_tiled", "partial_fit_tiled"):
+        # [name, decisions, rewards, contexts, times]: the batch repeated `times` times (thousands of rows)
+        t = op[4]
+        op = [name[:-6], list(op[1]) * t, list(op[2]) * t, ([list(r) for _ in range(t) for r in op[3]]
+                                                             if op[3] is not None else None)]
+        name = op[0]
     if name in ("fit", "partial_fit") and isinstance(op[3], dict):
         op = [op[0], np.asarray(op[1]), np.asarray(op[2], dtype=float), _ctx(op[3])]
     try:
